@@ -308,6 +308,10 @@ pub fn exec(spec: &Spec, r: &mut RunResult) {
                             later_relation = if amb(a) && amb(f) { "+guidance-differs" } else { "+unique-vs-ambig" };
                         }
                     }
+                    if let (Out::Bool(_), Out::Bool(_)) = (&out, &fresh) {
+                        // has_unique_solution differs: one state sees a unique answer where the other sees several / none
+                        later_relation = "+unique-vs-ambig";
+                    }
                     bad.push((
                         "later-differs-from-fresh".into(),
                         format!("follow-up #{} {} {:?} on `{}` after {:?}: `{}` but a fresh solver answers `{}`", oi, cfg.name(), op.kind, spec.world.goals[op.goal], sched, fmt_out(&out), fmt_out(&fresh)),
